@@ -358,6 +358,9 @@ func timeProfileCall(g *G, fromZero, toZero bool, missing, s, e int) callSpec {
 			}
 			st, pst := hhmmOf(60 * g.r.Intn(12))
 			en, pen := hhmmOf(60 * (12 + g.r.Intn(12)))
+			if g.r.Intn(3) == 0 { // (what sits under a key that is no segment number has no say, whichever way round it is)
+				st, pst, en, pen = en, pen, st, pst
+			}
 			segs[k] = types.Segment{Start: st, End: en}
 			ps = append(ps, []any{int(k), segPair(pst, pen)})
 		}
